@@ -1,6 +1,7 @@
 package main
 
 import (
+	"go/ast"
 	"go/types"
 	"strings"
 
@@ -24,6 +25,7 @@ const pagPkg = "collection/pagination"
 func runC19(c *Ctx) {
 	c.rule("E1", "a return reached only on the non-nil side of a test of a callee's error must not return a nil error (constructor failures are reported)", 10)
 	c.rule("E9", "in a function that can report an error, the error obtained from a callee goes somewhere: into a return, a call or a store — it is not merely looked at", 12)
+	c.rule("E12", "the stream paginator's GetNext looks for further items through the stream paginator's own HasNext (the one that follows future pages), not the embedded paginator's", 1)
 	c.rule("E11", "stream paginator: the page asked for its future is the page the paginator is on — no cursor-advancing call lies between reading the current page and using it", 1)
 	c.rule("E10", "the polling loop of the stream paginator's HasNext consults the paginator's context in every iteration and answers false once it is done", 1)
 	c.rule("E2", "HasNext/GetNext consult the paginator's context first: the DetermineContextError(a.ctx) test dominates every other call, and its failing side answers false / the error", 2)
@@ -47,6 +49,7 @@ func runC19(c *Ctx) {
 	c.c19Stream()
 	c.c19StreamStops()
 	c.c19StreamCurrentPage()
+	c.c19StreamGetNext()
 }
 
 // errDeadRule (E9): E1 looks at returns that lie wholly on the failing side of a test. A failure can also vanish without
@@ -73,13 +76,88 @@ func (c *Ctx) errDeadRule(rule string, f *ssa.Function) {
 			}
 			key := fname(f) + "/err-of:" + from
 			if e == ssa.Value(call) && (call.Referrers() == nil || len(*call.Referrers()) == 0) {
-				continue // result deliberately not taken (`_ = f()`): not this rule's business
+				// no use of the value at all: either the result is deliberately not taken (`_ = f()`, a bare call: not this
+				// rule's business) or it is assigned to a variable that is overwritten before anything looks at it
+				if name := assignedErrName(f, call, 0); name != "" {
+					c.violate(rule, key, c.ipos(call), "the error returned by "+from+" is assigned to "+name+" and never looked at: every path from here overwrites "+name+" or leaves without it, so a failure of the callee is lost")
+				}
+				continue
 			}
 			if c19ErrorGoesSomewhere(e, f, k, map[ssa.Value]bool{}) {
 				c.ok(rule, key, c.ipos(call), "error reported, passed on or stored")
 			} else {
 				c.violate(rule, key, c.ipos(call), "the error returned by "+from+" is received and at most compared with nil; it reaches no return, call or store: when the callee fails the function carries on and reports success (a variable of the same name as the error result, declared in an inner scope, is the usual way this happens)")
 			}
+		}
+	})
+}
+
+// assignedErrName: the name of the variable which result idx of the call is assigned to in the source, "" when the source
+// does not take the result (`_ = f()`, `f()`, defer, go).
+func assignedErrName(f *ssa.Function, call *ssa.Call, idx int) string {
+	syn := f.Syntax()
+	if syn == nil {
+		return ""
+	}
+	name := ""
+	ast.Inspect(syn, func(n ast.Node) bool {
+		as, ok := n.(*ast.AssignStmt)
+		if !ok {
+			return true
+		}
+		for i, r := range as.Rhs {
+			ce, ok := ast.Unparen(r).(*ast.CallExpr)
+			if !ok || ce.Lparen != call.Pos() {
+				continue
+			}
+			k := i
+			if len(as.Rhs) == 1 && len(as.Lhs) > 1 {
+				k = idx
+			} else if len(as.Rhs) != len(as.Lhs) {
+				continue
+			}
+			if k < len(as.Lhs) {
+				if id, ok := as.Lhs[k].(*ast.Ident); ok && id.Name != "_" {
+					name = id.Name
+				}
+			}
+		}
+		return true
+	})
+	return name
+}
+
+// errOverwrittenRule: the narrow half of errDeadRule, for code that legitimately probes (`if _, e := Lstat(p); e == nil && …`)
+// and translates (`if err != nil { return fresh }`): an error assigned to a named variable which nothing ever reads — every
+// path from the assignment overwrites the variable or leaves without it — is a failure that cannot be reported.
+func (c *Ctx) errOverwrittenRule(rule string, f *ssa.Function) {
+	allInstrs(f, func(in ssa.Instruction) {
+		call, ok := in.(*ssa.Call)
+		if !ok {
+			return
+		}
+		for _, e := range errResultsOf(call) {
+			from := short(calleeFull(&call.Call))
+			if from == "" {
+				from = "dynamic call"
+				if call.Call.Method != nil {
+					from += " " + call.Call.Method.Name()
+				}
+			}
+			key := fname(f) + "/err-of:" + from
+			idx := 0
+			if ex, ok := e.(*ssa.Extract); ok {
+				idx = ex.Index
+			}
+			if refs := e.Referrers(); refs == nil || len(*refs) == 0 {
+				if name := assignedErrName(f, call, idx); name != "" {
+					c.violate(rule, key, c.ipos(call), "the error returned by "+from+" is assigned to "+name+" and never looked at: every path from here overwrites "+name+" or leaves without it, so a failure of the callee is lost and the function carries on as if the step had succeeded")
+					continue
+				}
+				c.info(rule, key, c.ipos(call), "result not taken in the source")
+				continue
+			}
+			c.ok(rule, key, c.ipos(call), "error value read")
 		}
 	})
 }
@@ -199,6 +277,23 @@ func (c *Ctx) errDropRule(rule string, f *ssa.Function) {
 			if !ok || !edgeDominates(t.blk, t.nonNil, b) {
 				continue
 			}
+			// a failure that was looked at and classified (IsPathNotExist(err), commonerrors.Any(err, …), errors.Is(err, …)) before
+			// this return is a handled failure, not a dropped one
+			handled := onBoolSide(r, true, func(v ssa.Value) bool {
+				cl, isCall := v.(*ssa.Call)
+				if !isCall {
+					return false
+				}
+				for _, a := range cl.Call.Args {
+					if sameValue(a, t.v) || resolveValue(a) == resolveValue(t.v) {
+						return true
+					}
+				}
+				return false
+			})
+			if handled {
+				continue
+			}
 			n++
 			allNil := true
 			for _, l := range sources(r.Results[k], deriveOpts{through: func(string) bool { return false }}) {
@@ -211,6 +306,10 @@ func (c *Ctx) errDropRule(rule string, f *ssa.Function) {
 							continue // zero value of a local
 						}
 					}
+				}
+				// another error, which this return can only be reached with after it was found nil
+				if l != t.v && isErrorType(l.Type()) && onNilSide(l, r) {
+					continue
 				}
 				allNil = false
 			}
@@ -933,4 +1032,31 @@ func (c *Ctx) c19StreamCurrentPage() {
 	}
 	c.check(bad == "", "E11", key, c.ipos(fetches[0]), "the page asked for its future is read after every call that can move the paginator",
 		bad+": when a chain of `next` links ends in an empty page that carries the `future` link, the page asked is the one the iteration has left — it has no future, HasNext answers false and the items of the future pages are never yielded")
+}
+
+// c19StreamGetNext (E12): "GetNext without HasNext works" — for the stream paginators too, whose items continue on future
+// pages. Only (*AbstractStreamPaginator).HasNext follows the future of the current page; the embedded
+// (*AbstractPaginator).HasNext stops at the end of the `next` chain. When GetNext finds no item, the HasNext it asks is the
+// stream's own.
+func (c *Ctx) c19StreamGetNext() {
+	f := c.fn(pagPkg, "(*AbstractStreamPaginator).GetNext")
+	own := c.fn(pagPkg, "(*AbstractStreamPaginator).HasNext")
+	base := c.fn(pagPkg, "(*AbstractPaginator).HasNext")
+	if f == nil || own == nil || base == nil {
+		return
+	}
+	key := fname(f) + "/asks-the-stream"
+	asksOwn, asksBase := false, ""
+	allInstrs(f, func(in ssa.Instruction) {
+		if cl, ok := in.(*ssa.Call); ok {
+			switch staticCallee(&cl.Call) {
+			case own:
+				asksOwn = true
+			case base:
+				asksBase = c.ipos(cl)
+			}
+		}
+	})
+	c.check(asksOwn && asksBase == "", "E12", key, c.pos(f.Pos()), "the stream paginator's GetNext consults its own HasNext",
+		"the stream paginator's GetNext consults the embedded paginator's HasNext ("+asksBase+"), which never follows the future of the current page: GetNext called without HasNext at the end of a page returns 'not found' although items of future pages are to come")
 }
